@@ -22,6 +22,7 @@ Plan traverse_generate(uint64_t base, const std::string &prop, uint64_t index, i
     int nf = fc < 38 ? 0 : fc < 75 ? 1 : fc < 92 ? 2 : 3;
     Bytes other;
     if (nf) { int rk; bool v2; Node t2; std::vector<std::string> f2; Rng r2 = r.fork("other"); other = gen_document(r2, tier, rk, &t2, v2, f2, nullptr); }
+    Bytes pristine = p.doc;
     apply_faults(rf, p.doc, nf, p.faults, &other);
     // a corrupted frame would only exercise the init rejection: keep the frame so that the traversal gets somewhere
     if (nf && p.doc.size() >= 2 && rf.chance(4, 5)) { p.doc[0] = p.root ? 0x42 : 0x40; p.doc.back() = p.root ? 0x43 : 0x41; }
@@ -31,6 +32,11 @@ Plan traverse_generate(uint64_t base, const std::string &prop, uint64_t index, i
     else p.max_depth = 1 + (int)rd.below(40);
     p.prefill = rd.chance(1, 2) ? (rd.next() | 1) : 0;
     if (prop != "C16" && ro.chance(1, 5)) p.par["nocb"] = 1;
+    // fault then recovery: the damaged message is traversed first (until it fails or ends), the stored bytes are repaired in
+    // place, the application restarts the parser and traverses again; the verdict of THAT traversal is compared with verify
+    if (nf && !pristine.empty() && pristine.size() == p.doc.size() && pristine != p.doc && rf.chance(1, 3)) {
+        p.doc2 = p.doc; p.doc = pristine; p.par["recover"] = 1 + (int64_t)rf.below(3); p.faults.push_back("F7:damaged_first_then_repaired");
+    }
     int nch = (int)ro.below(tier ? 300 : 150);
     for (int i = 0; i < nch; i++) p.ops.push_back(mk(X_CHOICE, (int64_t)ro.below(1000)));
     return p;
@@ -43,6 +49,7 @@ struct Walker {
     std::vector<Bytes> seen;    // names seen so far (lookup candidates)
     bool ok = true, done = false;
     uint64_t skipped = 0, failed_lookups = 0;
+    int restart = 0;            // 0: init (first use); 1 reset; 2 verify then go on; 3 init again
     int64_t choice() { return ci < p.ops.size() ? p.ops[ci++].a : 0; }
     Outcome call(int code, int64_t a = 0, const Bytes &b = Bytes(), int64_t c = 0) { return ps.call(mk(code, a, b, c)); }
 
@@ -71,8 +78,11 @@ struct Walker {
     }
 
     void run() {
-        Outcome i = call(p.root ? P_INIT_ARR : P_INIT_OBJ, -1);
-        if (!i.ret) { ok = false; bump(r.cnt, "traverse.init_rejected"); return; }
+        Outcome i;
+        if (restart == 1) i = call(P_RESET);
+        else if (restart == 2) { i = call(P_VERIFY); }      // a successful verify leaves the cursor at the start
+        else i = call(p.root ? P_INIT_ARR : P_INIT_OBJ, -1);
+        if (!i.ret) { ok = false; bump(r.cnt, restart ? "traverse.restart_rejected" : "traverse.init_rejected"); return; }
         Outcome e = call(p.root ? P_ENTER_ARR : P_ENTER_OBJ);
         must(e, "enter_root");
         if (!ok) return;
@@ -115,10 +125,22 @@ Result traverse_execute(const Plan &p, const ExecCtx &c) {
         tr.add(fmt("VERIFY(fresh) -> %d e=%s", verify_ok, err_name(b.err)));
     }
     PSession ps(tr, sink, r.cnt);
-    ps.setup(p.max_depth, p.prefill, p.doc, p.root != 0);
+    ps.setup(p.max_depth, p.prefill, p.P("recover") ? p.doc2 : p.doc, p.root != 0);
     ps.guard_lookups = false;       // lookups are only issued while the traversal is inside an object
     ps.use_cb = !p.P("nocb");
-    Walker w{p, ps, r, 0, {}, {}, true, false, 0, 0};
+    Walker w{p, ps, r, 0, {}, {}, true, false, 0, 0, 0};
+    if (p.P("recover")) {
+        Walker w1{p, ps, r, 0, {}, {}, true, false, 0, 0, 0};
+        w1.run();                                   // first pass over the damaged message: whatever happens, happens
+        tr.add(fmt("FIRST PASS (damaged) -> ok=%d done=%d e=%s", w1.ok, w1.done, err_name(ps.inited ? ps.err() : 0)));
+        w.ci = w1.ci;
+        ps.src = p.doc;
+        if (ps.inited && ps.bblk.n == p.doc.size()) {
+            ps.rewrite(p.doc);
+            w.restart = (int)p.P("recover");        // 1 reset, 2 verify first, 3 init again
+        } else w.restart = 3;
+        bump(r.cnt, "traverse.recovered_runs");
+    }
     w.run();
     bool traversal_ok = w.ok && w.done && ps.err() == 0 && !ps.dead;
     tr.add(fmt("TRAVERSAL -> ok=%d done=%d e=%s", w.ok, w.done, err_name(ps.err())));
@@ -126,7 +148,7 @@ Result traverse_execute(const Plan &p, const ExecCtx &c) {
         if (traversal_ok) sink.fail("C08.mismatch.traversal_accepts_verify_rejects", "the traversal finished with every call successful and no error, but verify rejects the same bytes");
         else sink.fail("C08.mismatch.traversal_fails_verify_accepts", fmt("verify accepts the bytes but the traversal did not finish cleanly (ok=%d done=%d err=%s)", w.ok, w.done, err_name(ps.err())));
     }
-    if (traversal_ok && ps.total_cb > p.doc.size() + ps.calls) sink.fail("C16.linear.total", fmt("a complete traversal of %zu bytes made %llu token callbacks in %llu calls", p.doc.size(), (unsigned long long)ps.total_cb, (unsigned long long)ps.calls));
+    if (traversal_ok && !p.P("recover") && ps.total_cb > p.doc.size() + ps.calls) sink.fail("C16.linear.total", fmt("a complete traversal of %zu bytes made %llu token callbacks in %llu calls", p.doc.size(), (unsigned long long)ps.total_cb, (unsigned long long)ps.calls));
     ps.end_checks();
     bump(r.cnt, verify_ok ? "traverse.valid_delivery" : "traverse.invalid_delivery");
     r.clause = sink.clause; r.detail = sink.detail;
